@@ -439,8 +439,9 @@ private:
                            , std::ptrdiff_t y
                            )
     {
+        // buf holds a whole image row, y is the row in image coordinates
         if(  y >= this->_settings._top_left.y
-          && y <  this->_settings._dim.y
+          && y <  this->_settings._top_left.y + this->_settings._dim.y
           )
         {
             typename Buffer::const_iterator beg = buf.begin() + this->_settings._top_left.x;
@@ -448,7 +449,7 @@ private:
 
             std::copy( beg
                      , end
-                     , view.row_begin( y )
+                     , view.row_begin( y - this->_settings._top_left.y )
                      );
         }
     }
@@ -469,7 +470,7 @@ private:
         std::size_t stream_pos = this->_info._offset;
 
         using Buf_type = std::vector<rgba8_pixel_t>;
-        Buf_type buf( this->_settings._dim.x );
+        Buf_type buf( this->_info._width );
         Buf_type::iterator dst_it  = buf.begin();
         Buf_type::iterator dst_end = buf.end();
 
@@ -480,12 +481,13 @@ private:
         // The origin of a top-down DIB is also the bottom left corner of the bitmap image,
         // but in this case the bottom left corner is the first pixel of the last row of bitmap data.
         // - "Programming Windows", 5th Ed. by Charles Petzold explains Windows docs ambiguities.
+        // the run-length data covers the whole image, whatever part of it is being read
         std::ptrdiff_t ybeg = 0;
-        std::ptrdiff_t yend = this->_settings._dim.y;
+        std::ptrdiff_t yend = this->_info._height;
         std::ptrdiff_t yinc = 1;
         if( this->_info._height > 0 )
         {
-            ybeg = this->_settings._dim.y - 1;
+            ybeg = this->_info._height - 1;
             yend = -1;
             yinc = -1;
         }
@@ -715,7 +717,20 @@ public:
     template< typename ...Images >
     void apply( any_image< Images... >& images )
     {
-        detail::bmp_type_format_checker format_checker( this->_info._bits_per_pixel );
+        // palette images with a windows header that are not run-length encoded are read
+        // as rgba8, see detail::is_allowed
+        bmp_bits_per_pixel::type bits_per_pixel = this->_info._bits_per_pixel;
+
+        if(  bits_per_pixel <= 8
+          && this->_info._header_size == bmp_header_size::_win32_info_size
+          && this->_info._compression != bmp_compression::_rle8
+          && this->_info._compression != bmp_compression::_rle4
+          )
+        {
+            bits_per_pixel = 32;
+        }
+
+        detail::bmp_type_format_checker format_checker( bits_per_pixel );
 
         if( !detail::construct_matched( images
                               , format_checker
